@@ -934,3 +934,6 @@ Definition w_linequbit : qid := mkQid [76;105;110;101;81;117;98;105;116]%Z [3]%Z
 Theorem qid_mixed_trans_refuted : exists a b c,
   qid_ltb a b = true /\ qid_ltb b c = true /\ qid_ltb a c = false.
 Proof. exists w_lineqid, w_foreign, w_linequbit. repeat split; reflexivity. Qed.
+
+Theorem memo_nodup : forall bk v, NoDup (encode_memo bk v).
+Proof. intros bk v. unfold encode_memo. apply (proj1 (nodup_all bk)). constructor. Qed.
